@@ -50,7 +50,10 @@ struct GroupScenario : Scenario {
             case 21: { R.jv_g1affine_from_projective(v, a1, p1[x].b); R.jv_g2affine_from_projective(v, a2, p2[y].b); R.jv_pairing(v, t[x].b, a1, a2); out = w.ct(t[x]); break; }
             case 22: { // raw Fq12 outside GT: bytes -> unmarshal -> negate (must be the field inverse, not the conjugate) -> add
                 uint8_t raw[576]; Rng rr(strhash(op.s.empty() ? "" : op.s[0].c_str())); rr.fill(raw, 576); for (int i = 0; i < 12; i++) raw[i * 48] &= 0x0F;
-                R.jv_gt_unmarshal(v, t[x].b, raw); GTv inv, pr; R.jv_gt_negate(v, inv.b, t[x].b); R.jv_gt_add(v, pr.b, inv.b, t[x].b); uint8_t ob[576]; R.jv_gt_marshal(v, ob, pr.b); out = std::string((char*) ob, 576) + w.ct(inv); R.jv_const_get(JV_EK_GT, 1, t[x].b); break; }
+                R.jv_gt_unmarshal(v, t[x].b, raw); GTv inv, pr; R.jv_gt_negate(v, inv.b, t[x].b); R.jv_gt_add(v, pr.b, inv.b, t[x].b); uint8_t ob[576]; R.jv_gt_marshal(v, ob, pr.b); out = std::string((char*) ob, 576) + w.ct(inv);
+                // the same raw object given for both operands (result elsewhere, then result in it too): still the general product, not the GT squaring
+                { GTv sq; R.jv_gt_add(v, sq.b, t[x].b, t[x].b); out += w.ct(sq); R.jv_gt_add(v, t[x].b, t[x].b, t[x].b); out += w.ct(t[x]); env.count("probe:raw_fq12_outside_gt_same_object_for_both_operands"); }
+                R.jv_const_get(JV_EK_GT, 1, t[x].b); break; }
             // 24..26: equality of two objects that are byte-identical except for one bit of one stored coordinate (a copy damaged in the store): the
             // byte position walks over the whole coordinate, so a comparison that looks at part of it only answers differently from one that looks at all
             case 24: { R.jv_g1affine_from_projective(v, a1, p1[y].b); memcpy(b1.p, a1.p, a1.n); uint8_t c[97]; R.jv_g1a_canon(c, a1); if (c[0] == 0) b1.p[(sc[0] % 2) * 48 + sc[1] % 47] ^= (uint8_t) (1u << (sc[2] & 7)); flag = R.jv_g1affine_equal(v, a1, b1); G1v q; memcpy(q.b, p1[y].b, sizeof(q.b)); q.b[(sc[3] % 2) * 48 + sc[4] % 47] ^= (uint8_t) (1u << (sc[5] & 7)); flag = flag * 2 + R.jv_g1_equal(v, p1[y].b, q.b); break; }
